@@ -190,7 +190,9 @@ MUTATORS = {
                         ('propertyValue=', _set('propertyValue'), VALUE_TEXTS)],
     'style.property1': [('cssText=', _set('cssText'), PROPERTY_TEXTS), ('name=', _set('name'), NAMES), ('value=', _set('value'), VALUE_TEXTS), ('priority=', _set('priority'), PRIORITIES)],
     'style.value0': [('cssText=', _set('cssText'), VALUE_TEXTS)],
-    'style.value1.item': [('cssText=', _set('cssText'), ['2em', '1', '$$', '1px 2px', '', 'w', '1px;', '1e999px', '1 px'])],
+    'style.value1.item': [('cssText=', _set('cssText'), ['2em', '1', '$$', '1px 2px', '', 'w', '1px;', '1e999px', '1 px',
+                                                         # well-formed but out of range (the int() / float() limits), with another unit and sign
+                                                         '9' * 4400 + 'em', '-' + '1' * 400 + '.5%', '+' + '9' * 4400])],
     # (a colour: the grammar of the function is one thing, the kinds of its parameters another - both are refusals)
     'style.value0.item': [('cssText=', _set('cssText'), ['blue', '#fff', 'rgb(1,2,3)', 'rgba(10%,20%,30%,.5)', 'hsl(120,50%,50%)', 'rgb(1, 2%, 3)', 'rgb(10%, 20, 30)', 'rgba(1, 2, 3, 4%)',
                                                          'hsl(120, 50, 50)', 'hsla(120, 50%, 50%, 10%)', '#12', 'rgb(1, 2', 'rgb(1,2,3,4)', '1px', '', '$$', 'blue green'])],
